@@ -306,7 +306,12 @@ func c15UnsafeAPIs(p *Prog, r *Report) {
 			}
 			nIter++
 			if lr == nil {
-				lr = p.LockFlow(fi, nil)
+				// (an unexported helper starts with the locks held at all of its call sites: first() under Oldest's RLock)
+				var entry []Held
+				if fi.Obj != nil && !fi.Obj.Exported() {
+					entry = inferEntryHeld(p, fi, 0)
+				}
+				lr = p.LockFlow(fi, entry)
 			}
 			hs, _ := mustHeldAny(lr, c)
 			cons := k + "#omap." + fn.Name()
